@@ -27,7 +27,7 @@ KNOWN_FIELDS = ('options', 'path', 'normal_output', 'low_priority_output', 'usin
 
 PROBE_SHEETS = [
     ('.a .b{width:75rpx}', {'class_prefix': 'p'}), ('.a{x:y}', {'class_prefix': 'é'}), ('.a .b>.c{x:y}', {'class_prefix': '中文'}),
-    ('.a{x:y}.b{z:w}', {'class_prefix': ''}), ('.x .y{a:b}', {'class_prefix': '\U0001F600'}),
+    ('.a{x:y}.b{z:w}', {'class_prefix': ''}), ('.md\\:flex .w-1\\/2:not(.\\31 0px){x:y}', {'class_prefix': 'p'}), ('.a\\.b{x:y}', {'class_prefix': 'p', 'class_prefix_sign': 'S'}), ('.x .y{a:b}', {'class_prefix': '\U0001F600'}),
     (':host{c:d}', {'convert_host': True}), (':/**/host{c:d}.a{e:f}', {'convert_host': True, 'class_prefix': 'p'}), (':\\68ost{c:d}', {'convert_host': True}),
     ('@media (a){:hos\\74{c:d}}', {'convert_host': True, 'host_is': 'h'}), (':host{c:d}', {'convert_host': False}),
     ('@media (a){@supports (b){:host{c:d}}}@media (e){@supports (b){:host{f:g}}}', {'convert_host': True}),
@@ -36,6 +36,17 @@ PROBE_SHEETS = [
     ('@import "a";.b{c:d}', {'import_sign': 'IMP'}), ('@import "a" screen, print;.b{c:d}', {'import_sign': 'IMP'}),
     ('@import "a" layer(x) supports(display:grid) screen and (min-width:10px), print;', {'import_sign': 'IMP'}), ('a{b:1rpx}', {'rpx_ratio': 375.0}), ('a{b:1rpx}', {}),
 ]
+# every combination of the option values on three small sheets (an option that is rewritten from another one in the constructor only
+# shows under one combination)
+import itertools as _it
+for _ch, _hi, _cp, _is, _rr in _it.product((True, False), (None, 'h'), (None, 'p'), (None, 'IMP'), (None, 0.5)):
+    _o = {'convert_host': _ch}
+    for _k, _v in (('host_is', _hi), ('class_prefix', _cp), ('import_sign', _is), ('rpx_ratio', _rr)):
+        if _v is not None:
+            _o[_k] = _v
+    PROBE_SHEETS.append((':host{c:d}.a{w:1rpx}@media (m){:host{e:f}.b{g:h}}', _o))
+    if _is is not None:
+        PROBE_SHEETS.append(('@import "a";:host(.k){c:d}', _o))
 IMPORT_POSITION_PROBES = [
     ('@import "a";', {'import_sign': 'IMP'}, 0), ('.x{y:z}@import "a";', {'import_sign': 'IMP'}, 1), (':host{c:d}@import "a";', {'import_sign': 'IMP', 'convert_host': True}, 1),
     ('@media (a){:host{c:d}@import "a";}', {'import_sign': 'IMP', 'convert_host': True}, 1), ('@media (a){.x{c:d}}@import "a";', {'import_sign': 'IMP'}, 1), ('@font-face{a:b}@import "a";', {'import_sign': 'IMP'}, 1),
